@@ -33,9 +33,11 @@ theorem repeatAppend_lt (m r : List Nat) (n : Int) (hm : ∀ c ∈ m, c < 256) (
     ∀ c ∈ repeatAppend m n r, c < 256 := by
   intro c hc
   unfold repeatAppend at hc
-  rcases List.mem_append.mp hc with h | h
-  · exact hm c h
-  · exact hr c (mem_replicate_flatten _ _ _ h)
+  split at hc
+  · exact hm c hc
+  · rcases List.mem_append.mp hc with h | h
+    · exact hm c h
+    · exact hr c (mem_replicate_flatten _ _ _ h)
 
 theorem hexStep_good (table : List Nat) (ht : table.length ≤ 16) (s s' : HexM) (ch : Nat)
     (hg : HexGood s) (h : hexStep table s ch = some s') : HexGood s' := by
